@@ -18,8 +18,13 @@ struct VC { @builtin(vertex_index) c0: u32, @builtin(instance_index) c1: u32 }
 @vertex fn e0(a: VA, b: VB) -> @builtin(position) vec4<f32> { return vec4<f32>(0.0); }
 @vertex fn e1(b: VB) -> @builtin(position) vec4<f32> { return vec4<f32>(0.0); }
 @vertex fn e2(x: VB, @builtin(instance_index) ii: u32, a: VA) -> @builtin(position) vec4<f32> { return vec4<f32>(0.0); }
+@group(0) @binding(0) var<storage, read> gl: array<VB, 2>;
+var<private> gp: array<VA, 2>;
 @fragment fn fs() {}
 '''
+# roles of the vertex structs elsewhere in the module (symbolic in every run): what the fragment entry returns and the type of `gl`
+ROLE_RESULT = [None, 'VA', 'VB', 'VC']
+ROLE_GLOBAL = ['array<VB, 2>', 'array<VA, 2>', 'VA', 'VB', 'VC']
 MEMBERS = {'VA': ['a0', 'a1', 'a2'], 'VB': ['b0', 'b1'], 'VC': ['c0', 'c1']}
 PLACE = {'a0': ('Vector', 'Bi', 'Uint'), 'a2': ('Vector', 'Tri', 'Uint'), 'b0': ('Vector', 'Quad', 'Uint'), 'b1': ('Vector', 'Bi', 'Sint')}
 
@@ -82,7 +87,8 @@ def run(ctx):
         return next(i for i, t in enumerate(mj['types']) if t['inner'].get(kind) == {'scalar': {'kind': sk, 'width': 4}, 'size': size})
     quick = ctx.tier == 'quick'
     ctx.bounds = {'vertex structs': MEMBERS, 'entries': 'e0(VA, VB), e1(VB), e2(VB, builtin, VA)',
-                  'member type': 'scalar or vector, size / kind / width symbolic (WGSL-expressible: i32 u32 f32 f64)', 'location': 'all of u32; builtin vs location symbolic'}
+                  'member type': 'scalar or vector, size / kind / width symbolic (WGSL-expressible: i32 u32 f32 f64)', 'location': 'all of u32; builtin vs location symbolic',
+                  'roles elsewhere': f'fragment entry returns nothing or one of {ROLE_RESULT[1:]}; a storage global has type one of {ROLE_GLOBAL} (symbolic in every run)'}
     ctx.assumptions += ['vertex format table: kind / width / component count are read off the wgpu_types::VertexFormat variant name (Float32x3 ...)',
                         'offset and stride are emitted as offset_of!/size_of of the Rust struct: they satisfy wgpu\'s "offset + format size <= stride" and alignment rules '
                         'because the struct is #[repr(C)] and the field type has the same scalar width and component count as the format (C06); not re-proved here',
@@ -113,6 +119,26 @@ def run(ctx):
                 else:
                     jb = mj['types'][named[sname]]['inner']['Struct']['members'][ms.index(mname)]['binding']
                     binds[mname] = (B_['Location'], jb['Location']['location']) if 'Location' in jb else (B_['BuiltIn'], 0)
+        # roles elsewhere in the module: result type of the fragment entry, type of the global `gl`
+        arr_h = {}
+        for i_, t_ in enumerate(mj['types']):
+            a_ = t_['inner'].get('Array')
+            if a_ and a_['base'] in (named['VA'], named['VB']):
+                arr_h['array<VA, 2>' if a_['base'] == named['VA'] else 'array<VB, 2>'] = i_
+        role_h = dict(arr_h, VA=named['VA'], VB=named['VB'], VC=named['VC'])
+        has_res, res_ty, gl_ty = z3.Bool('fs_returns_struct'), z3.BitVec('fs_result_type', 32), z3.BitVec('gl_type', 32)
+        fr_vals = {'ty': res_ty, 'binding': none()}
+        fr = Agg('FunctionResult', [fr_vals[k] for k, _ in c.S['FunctionResult']])
+        eps = c.get(module, 'entry_points').items
+        fs_i = next(i_ for i_, e_ in enumerate(mj['entry_points']) if e_['name'] == 'fs')
+        c.set(c.get(eps[fs_i], 'function'), 'result', Agg('Option', {'Some': [fr], 'None': []}, disc=z3.If(has_res, z3.BitVecVal(1, 64), z3.BitVecVal(0, 64))))
+        gvs = c.get(module, 'global_variables').fields[0].items
+        gl_i = next(i_ for i_, g_ in enumerate(mj['global_variables']) if g_['name'] == 'gl')
+        c.set(gvs[gl_i], 'ty', gl_ty)
+        assume.append(z3.Or([res_ty == role_h[k] for k in ROLE_RESULT if k]))
+        assume.append(z3.Or([gl_ty == role_h[k] for k in ROLE_GLOBAL]))
+        inv_role = {v: k for k, v in role_h.items()}
+        roles_of = lambda m_: {'fs_result': inv_role[model_value(m_, res_ty)] if model_value(m_, has_res) else None, 'gl_type': inv_role[model_value(m_, gl_ty)]}
         for sname, ms in MEMBERS.items():
             for i in range(len(ms)):
                 for j in range(i):
@@ -133,7 +159,7 @@ def run(ctx):
                 key = 'C07/refuses'
                 seen[key] = seen.get(key, 0) + 1
                 if seen[key] == 1:
-                    src2 = render(spell, {k: (model_value(m, v[0]), model_value(m, v[1])) for k, v in binds.items() if is_sym(v[0])}, B_)
+                    src2 = render(spell, {k: (model_value(m, v[0]), model_value(m, v[1])) for k, v in binds.items() if is_sym(v[0])}, B_, roles_of(m))
                     k2, r2, _ = ctx.gen_tokens(src2, {}) if src2 else ('?', None, None)
                     ctx.report(key, f'generator panics ({out}) on WGSL-expressible vertex member types {spell}', {'wgsl': src2}, k2 == 'panic')
                 continue
@@ -148,15 +174,15 @@ def run(ctx):
                 continue
             spell = {k: h.wgsl(m) for k, h in holes.items()}
             bv = {k: (model_value(m, v[0]), model_value(m, v[1])) for k, v in binds.items() if is_sym(v[0])}
-            rep, det = replay(ctx, spell, bv, B_, mj)
-            ctx.report(key, f'{failed[0]} for member types {spell}, bindings {bv}', det, rep, det)
+            rep, det = replay(ctx, spell, bv, B_, mj, roles_of(m))
+            ctx.report(key, f'{failed[0]} for member types {spell}, bindings {bv}, roles {roles_of(m)}', det, rep, det)
         oks = [r for r in res if r[1] == 'ok']
         ctx.vacuity_witness('vertex layout assertions reachable', oks[0][0])
         for r in oks[:: max(1, len(oks) // (3 if quick else 20))]:
             m = ctx.witness(r[0])
             spell = {k: h.wgsl(m) for k, h in holes.items()}
             bv = {k: (model_value(m, v[0]), model_value(m, v[1])) for k, v in binds.items() if is_sym(v[0])}
-            src2 = render(spell, bv, B_)
+            src2 = render(spell, bv, B_, roles_of(m))
             if src2 and ctx.gen_tokens(src2, {})[0] == 'ok':
                 ctx.differential(src2, {})
                 ctx.sample({'members': spell, 'bindings(kind, location)': bv})
@@ -217,10 +243,14 @@ def conditions(impls, en, holes, binds, B_):
     return conds
 
 
-def render(spell, bv, B_):
+def render(spell, bv, B_, roles=None):
     if any(v is None for v in spell.values()):
         return None
     src = SRC
+    if roles:
+        src = src.replace('gl: array<VB, 2>;', f'gl: {roles["gl_type"]};')
+        if roles['fs_result']:
+            src = src.replace('@fragment fn fs() {}', f'@fragment fn fs() -> {roles["fs_result"]} {{ var o: {roles["fs_result"]}; return o; }}')
     default = {'a0': 'vec2<u32>', 'a1': 'u32', 'a2': 'vec3<u32>', 'b0': 'vec4<u32>', 'b1': 'vec2<i32>'}
     dattr = {'a0': '@location(0)', 'a1': '@builtin(vertex_index)', 'a2': '@location(1)', 'b0': '@location(2)', 'b1': '@location(3)'}
     nb = 0
@@ -243,8 +273,8 @@ def render(spell, bv, B_):
     return src
 
 
-def replay(ctx, spell, bv, B_, mj):
-    src = render(spell, bv, B_)
+def replay(ctx, spell, bv, B_, mj, roles=None):
+    src = render(spell, bv, B_, roles)
     if src is None:
         return False, {'note': 'no WGSL spelling'}
     kind, toks, _ = ctx.gen_tokens(src, {})
